@@ -45,6 +45,7 @@ class Model:
         self.tpls = []
         self.graphics = False    # XML only: coordinates on elements, nails (ignored by the reader, must not disturb anything)
         self.layout = 0          # 0 plain label texts, 1 comments around them, 2 blank lines and blanks around them
+        self.xmlstyle = 0        # XML only: 0 compact, 1 pretty printed, 2 comments / processing instructions everywhere, 3 ignorable labels and attributes
         self.encoding = "entities"   # XML only: how element text is written (entities, one CDATA section, text + CDATA, character references)
         self.insts = []      # (name, formal params [(kind,name)], template/instance name, [args])   args: ("k", K) / ("v", varname)
         self.procs = []      # names
@@ -184,9 +185,20 @@ def render_xml(m, queries=None):
     saved = X.ENCODING
     X.ENCODING = m.encoding
     try:
-        return _render_xml(m, queries)
+        doc = _render_xml(m, queries)
     finally:
         X.ENCODING = saved
+    import re
+    if m.xmlstyle == 1:      # pretty printed: line breaks and indentation between elements
+        doc = re.sub(r">(<(?!/))", r">\n   \1", doc)
+    elif m.xmlstyle == 2:    # comments and processing instructions between elements, in front of and inside element text
+        doc = re.sub(r"(<(?:label|declaration|parameter|system|name)\b[^>/]*>)((?:&[#a-z0-9]+;|[^<&]){2})", r"\1<!-- c -->\2<?pi x?><!-- d -->", doc)
+        doc = doc.replace("<transition", "<!-- t --><transition").replace("<location ", "<?pi y?><location ").replace("</template>", "<!-- e --></template>")
+    elif m.xmlstyle == 3:    # elements and attributes the reader has to ignore: comments labels, colours, ids on transitions, an empty label
+        doc = re.sub(r"(<location\b[^>]*>(?:<name\b[^>]*>(?:[^<]|<!\[CDATA\[.*?\]\]>)*</name>)?)", r'\1<label kind="comments" x="1" y="2">loc</label>', doc)
+        doc = re.sub(r"<transition\b", '<transition color="#ff0000" id="idt9"', doc)
+        doc = re.sub(r'(<target ref="[^"]*"/>)', r'\1<label kind="testcode"/><label kind="comments">note &lt; 1 &amp;&amp; x</label>', doc)
+    return doc
 
 
 def _render_xml(m, queries=None):
@@ -466,6 +478,7 @@ def build(choose, common=False, bp_base=True):
     m.graphics = bool(choose(2, "graphics")) if not common else False
     m.layout = choose(3, "labellayout")
     m.encoding = ["entities", "cdata", "cdata-split", "charrefs"][choose(4, "xmlencoding")]
+    m.xmlstyle = choose(4, "xmlstyle")
 
     m.gextra = [None, 951][choose(2, "gextra")]
     nt = [2, 1, 3][choose(3, "ntemplates")]
